@@ -5,20 +5,27 @@
 From Coq Require Import String.
 From MJ Require Import Common.Base C15.Vocab C15.Model C15.Spec.
 
-(* ---- the concrete universe (mirrored by c15.rs::{src_text, loader_fn, registry variants}) ---- *)
+(* ---- the concrete universe (mirrored by c15.rs::{src_text, expr_text, loader_fn, registry variants}) ---- *)
 (* a source x: kind = x mod 8, payload p = x / 8
-     kind 1      does not compile                         "{{ p }}{% bad"
-     kind 2      fails while rendering                    "{{ p }}{% for .. %}{% set y %}a{{ 1 // 0 }}.."
+     kind 1      does not compile                         "{{ p }}{% bad"            (expression: "p +")
+     kind 2      fails while rendering                    "{{ p }}{% for .. %}{% set y %}a{{ 1 // 0 }}.."   ("1 // 0")
      kind 3      "{{ V|F }}"                 F = filter name (p mod 2), V = p / 2
      kind 4      "{{ 1 if V is T else 0 }}"  T = test name (p mod 2)
      kind 5      "{{ G(V)|length }}"         G = global function name (p mod 2)
+     kind 6      "{% for i in [1] %}\n{{ p }}{% endfor %}"   renders p, preceded by a newline unless trim_blocks
+     kind 7      "{% if true %}{{ p }}{% endif %}\n"         renders p, followed by a newline iff keep_trailing_newline and not trim_blocks
      otherwise   renders p
+   configuration c: bit 0 = trim_blocks, bit 1 = keep_trailing_newline.
    registry names: 0 = a custom name (absent in a new environment), 1 = a built-in (abs / odd / range);
    function identity w: 0 = the built-in, w >= 1 = a custom closure: filter v+w, test (v+w) odd,
-   function returning a list of length v+w *)
-Definition ctmpl := Z.
-Definition c_compile (x : src) : cres ctmpl := if x mod 8 =? 1 then CErr E_SyntaxError else COk x.
-Definition c_render (t : ctmpl) (regs : rk -> Z -> option Z) : obs :=
+   function returning a list of length v+w.
+   A compiled template is (mode, source): mode c >= 0 a template compiled under configuration c,
+   -1 an expression, -2 a template parsed for undeclared_variables (result: how many). *)
+Definition ctmpl := (Z * Z)%type.
+Definition mode_code (m : cmode) : Z := match m with MTemplate c => c mod 4 | MExpr => -1 | MAnalysis => -2 end.
+Definition c_compile (m : cmode) (x : src) : cres ctmpl :=
+  if x mod 8 =? 1 then CErr E_SyntaxError else COk (mode_code m, x).
+Definition c_base (t : Z) (regs : rk -> Z -> option Z) : obs :=
   let k := t mod 8 in
   let p := t / 8 in
   if k =? 2 then o_err E_InvalidOperation
@@ -26,6 +33,17 @@ Definition c_render (t : ctmpl) (regs : rk -> Z -> option Z) : obs :=
   else if k =? 4 then match regs RT (p mod 2) with None => o_err E_UnknownTest | Some w => (0, (p / 2 + w) mod 2) end
   else if k =? 5 then match regs RG (p mod 2) with None => o_err E_UnknownFunction | Some w => (0, p / 2 + w) end
   else (0, p).
+Definition c_render (mt : ctmpl) (regs : rk -> Z -> option Z) : obs :=
+  let (m, t) := mt in
+  let k := t mod 8 in
+  if m =? -2 then (0, if k =? 5 then 1 else 0)
+  else if m =? -1 then c_base t regs
+  else
+    let trim := m mod 2 =? 1 in
+    let keep := 2 <=? m in
+    let nl := ((k =? 6) && negb trim) || ((k =? 7) && keep && negb trim) in
+    let r := c_base t regs in
+    if nl && (fst r =? 0) then (5, snd r * 4 + 1) else r.
 (* loader closure l at time now: the source it returns changes with time *)
 Definition c_loader (l now n : Z) : lres :=
   let x := (l * 5 + now * 3 + n * 7) mod 16 in
@@ -51,7 +69,14 @@ Definition decode (op a b now : Z) : option wop :=
   | 10 => Some (WRegRemove (rk_of (a / 2)) (a mod 2))
   | 11 | 12 => Some WClone
   | 13 => Some WSwap
-  | 14 => Some (WRenderStr b)
+  | 14 => Some (WAdhoc 0 a b)
+  | 16 => Some (WAdhoc 1 a b)
+  | 17 => Some (WAdhoc 2 a b)
+  | 18 => Some (WAdhoc 3 a b)
+  | 19 => Some (WAdhoc 4 a b)
+  | 20 => Some (WAdhoc 5 a b)
+  | 21 => Some (WAdhoc 6 a b)
+  | 22 => Some (WStore (OSetConfig (a mod 4)))
   | 15 => Some (WRenderBadCtx a now (negb (b =? 0)))
   | _ => None
   end.
@@ -101,8 +126,9 @@ Definition s_report (w : s_world) (now : Z) : list Z :=
 (* the contents the specification says the environments hold (what a fresh environment is built from) *)
 Definition optz (o : option Z) : Z := match o with Some z => z | None => -1 end.
 Definition s_contents_env (e : senv) (now : Z) : list Z :=
-  map (fun n => optz (tpl (sc e) n)) universe ++ [optz (cur_loader (sc e)); now] ++
-  flat_map (fun k => [optz (sr e k 0); optz (sr e k 1)]) [RF; RT; RG].
+  map (fun n => optz (option_map snd (tpl (sc e) n))) universe ++
+  map (fun n => optz (option_map fst (tpl (sc e) n))) universe ++ [optz (cur_loader (sc e)); now] ++
+  flat_map (fun k => [optz (sr e k 0); optz (sr e k 1)]) [RF; RT; RG] ++ [cur_cfg (sc e)].
 Definition s_contents (w : s_world) (now : Z) : list Z :=
   s_contents_env (scur w) now ++
   match sother w with
@@ -111,9 +137,9 @@ Definition s_contents (w : s_world) (now : Z) : list Z :=
   end.
 
 (* input: mode nsteps (op a b)*.  mode 0: every step's line; mode 1: only what the current environment
-   renders after the last step (8 integers) *)
+   renders after the last step, preceded by the result of the last step (10 integers) *)
 Definition finish (mode : Z) (lines : list (list Z)) : list Z :=
-  if mode =? 1 then firstn 8 (skipn 2 (last lines [])) else concat lines.
+  if mode =? 1 then firstn 10 (last lines []) else concat lines.
 
 Definition run_with (old : bool) (inp : list Z) : list Z :=
   match inp with
